@@ -21,6 +21,9 @@ ORACLE (implementation line only)
   * toml and toml_edit agree; a DocumentMut delivers no span (w_edoc succeeds only if no Spanned was reached).
 Known classes
   C14-implicit-table-span       a table that only a longer [header] mentions has no span: Spanned<..> over it fails.
+                                The class applies only when EVERY span-less table of the document is implicit, decided
+                                from the case's text alone (implicit_tables: no header of its own, no array element, not
+                                made of dotted keys, not inline); an explicit table without a span is a failure by itself.
   C14-spanned-option-missing    a struct field `Spanned<Option<T>>` whose key is missing fails (missing_field asks the
                                 MissingFieldDeserializer for a struct) where `Option<T>` alone is None.
   private-datetime-key (F14)    a date-time read as a map hands out the private tunnel key `$__toml_private_datetime`,
@@ -48,7 +51,7 @@ HARNESS = {"bin": "serde"}
 THEOREMS = [
     "C14_spanned_delivers: de_s (YSpanned t) s = Spanned{a..b, v} where (a,b) is the span of node s and v = de_s t s; without a span it fails",
     "C14_transparent: for every type with Spanned wrappers at any positions (sty_ok) and every tree all of whose nodes and keys have spans: de_s t s succeeds iff de_value (erase t) (strip s) succeeds, and the values agree after erasing spans",
-    "C14_erasure_sound: whenever de_s succeeds, the erased type succeeds on the stripped tree with the erased value (no hypothesis)",
+    "C14_spanned_needs_spans: on a tree without spans (DocumentMut) Spanned<T> fails, whatever T",
     "C14_spanned_key_delivers / C14_spanned_key_transparent: a map key Spanned<K> carries the key's span around what K yields, for ANY key type; keys are transparent under any nesting of Spanned / newtype wrappers (repaired finding C14-spanned-newtype-key, old witness kept as a regression Example)",
     "C14_implicit_table_refuted / C14_spanned_option_missing_refuted: the two ways transparency fails, with witnesses",
 ]
@@ -213,12 +216,123 @@ def parse_doc_spans(s):
     return go()
 
 
-def any_table_without_span(n):
+def tables_without_span(n, at=()):
+    """the positions (keys, and indices into arrays) of the tables of a span tree that have no span"""
+    out = []
     if n[0] == "T":
-        return n[1] is None or any(any_table_without_span(x) for _, _, x in n[2])
-    if n[0] == "L":
-        return any(any_table_without_span(x) for x in n[2])
-    return False
+        if n[1] is None:
+            out.append(at)
+        for k, _, x in n[2]:
+            out += tables_without_span(x, at + (k,))
+    elif n[0] == "L":
+        for i, x in enumerate(n[2]):
+            out += tables_without_span(x, at + (i,))
+    return out
+
+
+# --- which tables of a document are IMPLICIT, from its text alone -------------------------------------------------
+# (independent of every parser: the documents of this check are rendered by gen_serde.render_doc / written by hand, one
+#  statement per line, values on one line.)  A table is implicit when it is mentioned only as a proper prefix of [headers] /
+# [[headers]]: it has no header of its own, is no element of an array of tables, no table made of dotted keys and no inline
+# table.  Only such a table may lack a span (known finding C14-implicit-table-span).
+_ESC = {"b": "\b", "t": "\t", "n": "\n", "f": "\f", "r": "\r", "e": "\x1b", '"': '"', "\\": "\\"}
+
+
+def _key_path(s, i):
+    """a dotted key starting at s[i] -> ([key, ...], index behind it); None when there is none"""
+    keys = []
+    n = len(s)
+    while True:
+        while i < n and s[i] in " \t":
+            i += 1
+        if i >= n:
+            return None
+        c = s[i]
+        if c == '"':
+            i += 1
+            buf = []
+            while i < n and s[i] != '"':
+                if s[i] == "\\":
+                    e = s[i + 1]
+                    if e == "u":
+                        buf.append(chr(int(s[i + 2:i + 6], 16))); i += 6
+                    elif e == "U":
+                        buf.append(chr(int(s[i + 2:i + 10], 16))); i += 10
+                    else:
+                        buf.append(_ESC[e]); i += 2
+                else:
+                    buf.append(s[i]); i += 1
+            if i >= n:
+                return None
+            i += 1
+            keys.append("".join(buf))
+        elif c == "'":
+            j = s.find("'", i + 1)
+            if j < 0:
+                return None
+            keys.append(s[i + 1:j])
+            i = j + 1
+        else:
+            j = i
+            while j < n and s[j] in G.BARE:
+                j += 1
+            if j == i:
+                return None
+            keys.append(s[i:j])
+            i = j
+        while i < n and s[i] in " \t":
+            i += 1
+        if i < n and s[i] == ".":
+            i += 1
+            continue
+        return keys, i
+
+
+def implicit_tables(text):
+    """-> the set of positions (as in tables_without_span) of the implicit tables of the document; None when the text is
+    not of the one-statement-per-line form this reads"""
+    kind = {}          # position -> "implicit" | "explicit"
+    count = {}         # position of an array of tables -> number of elements so far
+    cur = ()
+
+    def descend(at, keys):
+        for k in keys:
+            at = at + (k,)
+            if at in count:
+                at = at + (count[at] - 1,)        # a path through an array of tables means its last element
+            else:
+                kind.setdefault(at, "implicit")
+        return at
+
+    for line in text.replace("\r\n", "\n").split("\n"):
+        t = line.lstrip(" \t")
+        if not t or t[0] == "#":
+            continue
+        if t.startswith("[["):
+            r = _key_path(t, 2)
+            if r is None or not t[r[1]:].startswith("]]"):
+                return None
+            keys = r[0]
+            arr = descend((), keys[:-1]) + (keys[-1],)
+            count[arr] = count.get(arr, 0) + 1
+            cur = arr + (count[arr] - 1,)
+            kind[cur] = "explicit"
+        elif t[0] == "[":
+            r = _key_path(t, 1)
+            if r is None or not t[r[1]:].startswith("]"):
+                return None
+            keys = r[0]
+            cur = descend((), keys[:-1]) + (keys[-1],)
+            kind[cur] = "explicit"
+        else:
+            r = _key_path(t, 0)
+            if r is None or not t[r[1]:].startswith("="):
+                return None
+            at = cur
+            for k in r[0][:-1]:                     # tables made of dotted keys have spans
+                at = at + (k,)
+                kind[at] = "explicit"
+    return {at for at, k in kind.items() if k == "implicit"}
 
 
 def key_string(kt, kx):
@@ -317,6 +431,14 @@ def float_free(t):
 
 # fixed witnesses of the two known classes, and of the repaired C14-spanned-newtype-key (now an ordinary case)
 W_IMPLICIT = (("S", "S", [("a", ("Y", ("S", "T", [("b", ("S", "U", [("c", ("int", "i8"))]))])))]), "[a.b]\nc = 3\n")
+# a table re-opened by its own header AFTER the header of one of its sub-tables / of an array of tables below it: it is
+# explicit and has a span (ordinary cases; a parser that loses the span here is caught by the exact classifier)
+W_REOPENED = [(("S", "S", [("a", ("Y", ("S", "T", [("b", ("S", "U", [("c", ("int", "i8"))])), ("x", ("int", "i8"))])))]),
+               "[a.b]\nc = 3\n[a]\nx = 1\n"),
+              (("S", "S", [("a", ("Y", ("S", "T", [("b", ("L", ("S", "U", [("c", ("int", "i8"))]))), ("x", ("int", "i8"))])))]),
+               "[[a.b]]\nc = 3\n[[a.b]]\nc = 4\n[a]\nx = 1\n"),
+              (("S", "S", [("t", ("L", ("S", "T", [("a", ("Y", ("S", "V", [("b", ("S", "U", [("c", ("int", "i8"))])), ("x", ("int", "i8"))])))])))]),
+               "[[t]]\n[t.a.b]\nc = 3\n[t.a]\nx = 1\n[[t]]\n[t.a.b]\nc = 5\n[t.a]\nx = 2\n")]
 W_OPTION = (("S", "S", [("a", ("int", "i64")), ("o", ("Y", ("O", ("int", "i8"))))]), "a = 3\n")
 W_NEWTYPE_KEY = (("M", ("Y", ("N", "W", ("s",))), ("int", "i8")), "k = 3\n")
 W_KEYS = [(("M", ("Y", ("Y", ("s",))), ("int", "i8")), "k = 3\n\"a b\" = 4\n"),
@@ -361,6 +483,8 @@ def gen_cases(rng, tier):
     for c in c14.struct_docs(rng, tier)[: (600 if tier == "quick" else 8000)]:
         out.append(Case("spanned_fidelity", [c.args[1]], {"kind": "fidelity"}))
     out.append(spanned_case(W_IMPLICIT[0], W_IMPLICIT[1], "witness-implicit-table"))
+    for wty, wdoc in W_REOPENED:
+        out.append(spanned_case(wty, wdoc, "reopened-table"))
     out.append(spanned_case(W_OPTION[0], W_OPTION[1], "witness-option-missing"))
     out.append(spanned_case(W_NEWTYPE_KEY[0], W_NEWTYPE_KEY[1], "witness-newtype-key"))
     for wty, wdoc in W_KEYS:
@@ -384,10 +508,10 @@ def gen_cases(rng, tier):
             if tree[0] != "t":
                 continue
             wty = wrap_spanned(rng, ty, rng.choice([0.15, 0.3, 0.6]))
-            out.append(spanned_case(wty, G.render_doc(rng, tree), "rendered"))
+            out.append(spanned_case(wty, G.render_doc(rng, tree, p_subfirst=0.3), "rendered"))
             if j == 0:
                 t2, how = c13.mutate_tree(rng, tree)
-                out.append(spanned_case(wty, G.render_doc(rng, t2), "tree-" + how))
+                out.append(spanned_case(wty, G.render_doc(rng, t2, p_subfirst=0.3), "tree-" + how))
     return out
 
 
@@ -414,9 +538,20 @@ def judge(case, line):
     if f.get("valid") != "1":
         return [("generator bug: the rendered document is not valid TOML", None)]
     doc = parse_doc_spans(f["doc"]) if "doc" in f else None
+    # the tables without a span: only an IMPLICIT table may have none (implicitness read off the case's text, not off any
+    # parser); an explicit one without a span is a failure whatever the target type looks at
+    spanless = tables_without_span(doc) if doc is not None else []
+    if spanless:
+        imp = implicit_tables(case.args[1].decode("utf-8", "replace"))
+        if imp is None:
+            return [("harness: the document is not of the one-statement-per-line form the implicit-table scan reads", None)]
+        expl = [at for at in spanless if at not in imp]
+        if expl:
+            out.append(("table %s has a header of its own (or is an array element / dotted / inline table) and yet no span in the "
+                        "document's span tree" % "/".join(repr(x) for x in expl[0]), None))
     # the class of a non-transparent outcome
     cls = None
-    if doc is not None and any_table_without_span(doc):
+    if spanless and not out:
         cls = "C14-implicit-table-span"
     elif bad_field_somewhere(ty):
         cls = "C14-spanned-option-missing"
